@@ -2,6 +2,7 @@ import RichModel.Lemmas.Ratio
 import RichModel.Lemmas.TableRender
 import RichModel.Lemmas.TableWidths
 import RichModel.Lemmas.CollapseKeep
+import RichModel.Lemmas.TableTotal
 import RichModel.Gen.CellWidths
 import RichModel.Gen.TableBoxes
 /-!
@@ -430,5 +431,65 @@ theorem width_fits (fl : Flags) (t : Table) (maxWidth : Int) (hnr : t.NoRatio) (
 example : ({ columns := [{ header := wCell ['a', 'b', 'c', 'd', 'e', 'f'], footer := wCell [], cells := [wCell ['1']] },
                           { header := wCell ['g', 'h', 'i', 'j', 'k', 'l', 'm', 'n'], footer := wCell [], cells := [] }],
              padding := (0, 0, 0, 0) } : Table).calcWidths Flags.today 9 = some [4, 5] := by decide
+
+/-! ### totality (what C14 needs): `_calculate_column_widths` never trips `assert total_ratio > 0` -/
+
+/-- **calc_widths_total.**  With the two assertion defects repaired (`noColumnsAsserts`, `flexNegative` = false; the
+other flags either way), `_calculate_column_widths` returns widths for EVERY table whose options are not negative
+and whose cells measure `0 ≤ maximum` (`Table.Sane`): any number of columns INCLUDING ZERO, any mix of fixed /
+capped / ratio (also ratio 0) columns, expanding or not, any `width` / `min_width`, at every `max_width`
+(negative, 0, tiny, huge). -/
+theorem calc_widths_total (fl : Flags) (h1 : fl.noColumnsAsserts = false) (h2 : fl.flexNegative = false)
+    (t : Table) (h : t.Sane) (maxWidth : Int) : ∃ ws, t.calcWidths fl maxWidth = some ws :=
+  calcWidths_total fl h1 h2 t h maxWidth
+
+/-- …hence `Table.__rich_console__` and `Table.__rich_measure__` never raise that assertion either. -/
+theorem table_render_total (fl : Flags) (h1 : fl.noColumnsAsserts = false) (h2 : fl.flexNegative = false)
+    (t : Table) (h : t.Sane) (avail : Int) : ∃ r, t.render fl cw avail = some r := by
+  obtain ⟨ws, hws⟩ := calcWidths_total fl h1 h2 t h (t.width.getD avail - t.extraWidth)
+  unfold Table.render
+  simp only [hws]
+  exact ⟨_, rfl⟩
+
+theorem rich_measure_total (fl : Flags) (h1 : fl.noColumnsAsserts = false) (h2 : fl.flexNegative = false)
+    (t : Table) (h : t.Sane) (maxWidth : Int) : ∃ m, t.richMeasure fl maxWidth = some m := by
+  unfold Table.richMeasure
+  simp only
+  split
+  · exact ⟨_, rfl⟩
+  · obtain ⟨ws, hws⟩ := calcWidths_total fl h1 h2 t h (t.width.getD maxWidth - t.extraWidth)
+    simp only [hws]
+    exact ⟨_, rfl⟩
+
+/-- Witnesses (found by the C14 builder; `Flags.repaired` leaves these two defects as they are today): a table
+without columns that expands / has a `width` / a `min_width` asserts … -/
+theorem old_no_columns_asserts :
+    ({ columns := [], expandFlag := true } : Table).calcWidths Flags.repaired 20 = none ∧
+    ({ columns := [], width := some 10 } : Table).calcWidths Flags.repaired 10 = none ∧
+    ({ columns := [], minWidth := some 10 } : Table).calcWidths Flags.repaired 20 = none := by decide
+
+example : ({ columns := [], expandFlag := true } : Table).calcWidths Flags.allRepaired 20 = some [] := by decide
+
+/-- … and so does `Table(expand=True, min_width=5, padding=0)` with a `ratio=1` and a `ratio=0` column when no room is
+left: `ratio_distribute(0, [1, 0], [1, 1]) = [1, -1]`, the widths sum to 0. -/
+def wTableNarrow : Table :=
+  { columns := [{ header := wCell [], footer := wCell [], cells := [], ratio := some 1 },
+                { header := wCell [], footer := wCell [], cells := [], ratio := some 0 }],
+    expandFlag := true, minWidth := some 5, padding := (0, 0, 0, 0) }
+
+theorem old_flex_negative_asserts : wTableNarrow.calcWidths Flags.repaired 0 = none := by decide
+example : wTableNarrow.calcWidths Flags.allRepaired 0 = some [1, 1] := by decide
+
+/-- `Table.Sane` is satisfiable by a non-trivial table. -/
+example : wTableNarrow.Sane :=
+  ⟨by decide, by decide, by decide, by decide, by decide, by
+    intro c hc cell hcell w
+    simp only [wTableNarrow, List.mem_cons, List.not_mem_nil, or_false] at hc
+    rcases hc with rfl | rfl <;>
+      · simp only [Table.getCells, wTableNarrow, wCell, List.mem_cons, List.not_mem_nil, or_false, List.append_nil,
+          if_true, if_false, List.nil_append, Bool.false_eq_true] at hcell
+        subst hcell
+        show (0 : Int) ≤ min 0 (w : Int)
+        omega⟩
 
 end RichModel.C07
